@@ -9,8 +9,8 @@ import modelrun
 from ref import oracle
 from props import edit_common as EC
 
-GEN_FILES = []
-EXTRA_TARGETS = ["Extract/ExtractEdit.vo"]
+GEN_FILES = ["GenCli.v"]
+EXTRA_TARGETS = ["Extract/ExtractEdit.vo", "Model/RoutesRun.vo"]
 AREAS = ["edit"]
 RULE = ("exhaustive shape space: every assignment of Keep / Clear / Set to the six editable fields (3^6 = 729 requests, value shape "
         "str or list alternating) x 15 base metafiles (3 reference-encoded ones with UNSORTED top-level and info keys; v1 / v2 / hybrid x {all optional fields, none, tracker+source}, written by the "
@@ -154,6 +154,110 @@ def run(ctx, model_ok):
                                  o[:160], want[:160])
     sequences(ctx)
     foreign_layout(ctx)
+    cli_tie(ctx, model_ok)
+
+
+# ---------------------------------------------------------------------------- tie of the generated edit table (C07_cli_*)
+CLI_PREAMBLE = r"""
+From Coq Require Import String List Bool Ascii Arith.
+From TF Require Import Model.ArgParse Model.Routes Model.RoutesEdit Gen.GenCli Model.RoutesRun.
+Import ListNotations.
+Open Scope string_scope.
+Fixpoint strs_eq (a b : list string) : bool :=
+  match a, b with [], [] => true | x :: r, y :: s => String.eqb x y && strs_eq r s | _, _ => false end.
+Definition val_eq (a b : value) : bool :=
+  match a, b with
+  | VNone, VNone => true | VBool x, VBool y => Bool.eqb x y | VStr x, VStr y => String.eqb x y
+  | VInt x, VInt y => Nat.eqb x y | VList x, VList y => strs_eq x y | _, _ => false
+  end.
+Fixpoint ns_eq_ordered (a b : namespace) : bool :=
+  match a, b with
+  | [], [] => true
+  | (k, v) :: r, (k', v') :: s => String.eqb k k' && val_eq v v' && ns_eq_ordered r s
+  | _, _ => false
+  end.
+(* Some (metafile, editargs): edit_torrent was called with them; None: argparse exited with status 2 *)
+Definition check (i : list string * option (string * namespace)) : bool :=
+  match run_edit_parse (fst i), snd i with
+  | ER_ok (VStr m) ea, Some (m', ea') => String.eqb m m' && ns_eq_ordered ea ea'
+  | ER_error, None => true
+  | ER_outside, _ => true
+  | _, _ => false
+  end.
+"""
+
+
+def cli_tie(ctx, model_ok):
+    """`torrentfile edit <argv>`: the (metafile, request) that commands.edit hands to edit_torrent -- or the argparse error --
+       versus run_edit_parse (the argparse model on the edit table and mapping REGENERATED from cli.py / commands.py)"""
+    from props import c20 as C20
+    core.use_repo_in_process()
+    import torrentfile.cli as cli
+    import torrentfile.commands as commands
+    flags = {"comment": ["--comment"], "source": ["--source"], "private": ["--private"],
+             "announce": ["--tracker"], "url-list": ["--web-seed"], "httpseeds": ["--http-seed"]}
+    vals = ["x", "http://t/a", "two words", "e", "1", "true", "a=b", "%41"]      # ASCII: Coq string literals
+    rng = ctx.rng
+    argvs = [["m.torrent"], [], ["m.torrent", "--private"], ["--private", "m.torrent"], ["m.torrent", "--comment"],
+             ["m.torrent", "--tracker"], ["--tracker", "u1", "m.torrent"], ["m.torrent", "--bogus"], ["m.torrent", "extra"]]
+    n = 300 if ctx.tier == "quick" else 4000
+    for _ in range(n):
+        items = []
+        for f in rng.sample(list(flags), rng.randrange(0, 5)):
+            fl = rng.choice(flags[f])
+            if f == "private":
+                items.append([fl])
+            elif f in ("comment", "source"):
+                items.append([fl, rng.choice(vals)])
+            else:
+                items.append([fl] + [rng.choice(vals) for _ in range(rng.randrange(1, 4))])
+            if rng.random() < 0.15:
+                items.append(list(items[-1]))          # a repeated flag: the last one wins
+        pos = rng.randrange(0, len(items) + 1)
+        argv = [t for it in items[:pos] for t in it] + (["m.torrent"] if rng.random() < 0.95 else []) + \
+            [t for it in items[pos:] for t in it]
+        argvs.append(argv)
+    captured = {}
+
+    def fake_edit(metafile, editargs):
+        captured["call"] = (metafile, dict(editargs), list(editargs))
+        return {}
+    real = commands.edit_torrent
+    items = []
+    try:
+        commands.edit_torrent = fake_edit
+        for argv in argvs:
+            captured.clear()
+            status = None
+            try:
+                trees.quiet(cli.execute, ["edit"] + argv)
+            except SystemExit as e:
+                status = e.code
+            except Exception as e:  # noqa
+                status = f"{type(e).__name__}"
+            if "call" in captured:
+                m, d, order = captured["call"]
+                exp = f"Some ({C20.cstr(m)}, [" + "; ".join(f"({C20.cstr(k)}, {C20.gval(d[k])})" for k in order) + "])"
+                named = sorted(k for k in order if d[k] is not None)
+            elif status == 2:
+                exp, named = "None", ["argparse error"]
+            else:
+                ctx.notes.append(f"edit argv {argv}: neither a call nor exit status 2 ({status})")
+                continue
+            items.append(("(" + C20.glist(argv) + ", " + exp + ")", argv, exp))
+            ctx.case(key=("edit-cli", tuple(argv)), classes=["edit table tie"] + [f"edit cli names {k}" for k in named][:6], nontrivial=True)
+    finally:
+        commands.edit_torrent = real
+    if not model_ok:
+        return
+    bad, err = core.coq_eval_failing(CLI_PREAMBLE, [t for t, _, _ in items], "check")
+    if err:
+        ctx.broken.append("vm_compute evaluation of run_edit_parse failed: " + err[-600:])
+        return
+    ctx.traces_validated += len(items)
+    for i in bad:
+        ctx.disagree("Model/RoutesEdit.v run_edit_parse (generated edit table) vs cli.execute(['edit', ...]) + commands.edit",
+                     {"argv": items[i][1]}, "differs (evaluate run_edit_parse on this argv)", items[i][2][:300])
 
 
 def sequences(ctx):
